@@ -155,7 +155,7 @@ Proof. unfold is_unit, q_unit, v3norm2, v3dot, qdot; cbn. repeat split; lra. Qed
 
 (* ---- gradient = tangent derivative for unit vectors and quaternions.
    Non-singularity guards (explicit):
-     uv_nonsingular v1 v2 :=  -1 < v1.v2 < 1  /\  (v1.v2 <= 0 \/ 1e-28 <= 1 - (v1.v2)^2)
+     uv_nonsingular v1 v2 :=  -1 < v1.v2 < 1  /\  1e-28 <= 1 - (v1.v2)^2
         (not coincident, not antipodal, and outside the implementation's null-gradient threshold);
      q_nonsingular q1 q2  :=  -1 < q1.q2 < 1  /\  q1.q2 <> 0  /\  1e-14 <= sqrt(1 - (q1.q2)^2)
         (not equivalent, not at the switch of the shorter geodesic, outside the null-gradient threshold).
@@ -587,3 +587,68 @@ Proof.
   split; [exact E1|]. split; [exact E2|]. apply hw_distance_cases; exact HP.
 Qed.
 Print Assumptions C18_walls_on_periodic_variable.
+
+(* ---- unit vectors at the two singular geometries (coincident, exactly opposite): the reported gradient is the null vector, so a
+   restraint centred exactly opposite to the value applies a zero force, never an infinite or undefined one (after the repair) ---- *)
+Theorem C18_unitvector_null_gradient_at_singular_geometries : forall (k w : R) (a b : vec3),
+  (v3dot Rops a b = 1 \/ v3dot Rops a b = -1 -> uv_grad Rops a b = (0, 0, 0)) /\
+  (is_unit a ->
+   hr_force Rops PI k w KUnit (V3 a) (V3 (v3scale Rops (-1) a)) =
+     Some (V3 (- (1 / 2) * k / (w * w) * 0, - (1 / 2) * k / (w * w) * 0, - (1 / 2) * k / (w * w) * 0))).
+Proof. intros k w a b. split; [apply uv_grad_singular | intros Ha; apply (hr_unit_singular_force k w a Ha)]. Qed.
+Print Assumptions C18_unitvector_null_gradient_at_singular_geometries.
+
+(* run-time modifications of the components (modifycvcs): after EVERY history the variable is periodic exactly when every component
+   IN FORCE is periodic with the common period, coefficient +-1, exponent 1; the number of components never changes *)
+Theorem C18_sum_decision_follows_history : forall (l : list scomp) (mods : list (nat * option R * R)) (P c : R),
+  (sum_periodic Rops (sum_history l mods) = Some (P, c) <->
+   (exists k0 r, sum_history l mods = k0 :: r /\ c = sc_wc k0) /\ List.Forall (sc_ok P) (sum_history l mods)) /\
+  length (sum_history l mods) = length l.
+Proof. intros l mods P c. split; [apply sum_history_decision | apply sum_history_length]. Qed.
+Print Assumptions C18_sum_decision_follows_history.
+
+(* ---- one metadynamics hill and one OPES kernel, evaluated through the variable's own distance: the same energy and force for
+   equivalent values and centres (wrapped, whole periods, quaternion sign) - in particular across the periodic boundary ---- *)
+Theorem C18_hill_and_kernel_see_equivalent_values : forall (W sigma : R),
+  (forall kind x c, comp_ok kind ->
+     hill_energy Rops PI W sigma kind (comp_wrap Rops kind x) (comp_wrap Rops kind c) = hill_energy Rops PI W sigma kind x c /\
+     hill_force Rops PI W sigma kind (comp_wrap Rops kind x) (comp_wrap Rops kind c) = hill_force Rops PI W sigma kind x c) /\
+  (forall P c0 x c (n m : Z), 0 < P ->
+     hill_energy Rops PI W sigma (KPeriodic P c0) (VS (x + IZR n * P)) (VS (c + IZR m * P)) = hill_energy Rops PI W sigma (KPeriodic P c0) (VS x) (VS c) /\
+     hill_force Rops PI W sigma (KPeriodic P c0) (VS (x + IZR n * P)) (VS (c + IZR m * P)) = hill_force Rops PI W sigma (KPeriodic P c0) (VS x) (VS c)) /\
+  (forall q c,
+     hill_energy Rops PI W sigma KQuat (VQ (qneg Rops q)) (VQ c) = hill_energy Rops PI W sigma KQuat (VQ q) (VQ c) /\
+     hill_energy Rops PI W sigma KQuat (VQ q) (VQ (qneg Rops c)) = hill_energy Rops PI W sigma KQuat (VQ q) (VQ c)) /\
+  (forall cut vac P c0 kc x (n m : Z), 0 < P ->
+     opes_kernel Rops PI W sigma cut vac (KPeriodic P c0) (kc + IZR n * P) (x + IZR m * P) = opes_kernel Rops PI W sigma cut vac (KPeriodic P c0) kc x /\
+     opes_kernel Rops PI W sigma cut vac (KPeriodic P c0) (cvc_wrap Rops c0 P kc) (cvc_wrap Rops c0 P x) = opes_kernel Rops PI W sigma cut vac (KPeriodic P c0) kc x).
+Proof.
+  intros W sigma. split; [intros kind x c Hk; apply hill_wrap; exact Hk|].
+  split; [intros P c0 x c n m HP; apply hill_periodic_images; exact HP|].
+  split; [intros q c; apply hill_quaternion_sign | intros cut vac P c0 kc x n m HP; apply opes_kernel_images; exact HP].
+Qed.
+Print Assumptions C18_hill_and_kernel_see_equivalent_values.
+
+(* ---- on the manifolds (distanceDir: unit vectors; orientation: quaternions): along every differentiable curve through the value
+   (tangent for quaternions) the derivative of the harmonic restraint energy is minus <restraint force, velocity>, away from the
+   singular geometries ---- *)
+Theorem C18_restraint_force_is_minus_energy_derivative_on_manifolds : forall k w : R,
+  (forall a b q c,
+     hr_energy Rops PI k w KUnit (V3 a) (V3 b) = Some (1 / 2 * k / (w * w) * uv_dist2 Rops a b) /\
+     hr_force Rops PI k w KUnit (V3 a) (V3 b) = Some (V3 (v3scale Rops (- (1 / 2) * k / (w * w)) (uv_grad Rops a b))) /\
+     hr_energy Rops PI k w KQuat (VQ q) (VQ c) = Some (1 / 2 * k / (w * w) * q_dist2 Rops PI q c) /\
+     hr_force Rops PI k w KQuat (VQ q) (VQ c) = Some (VQ (qscale Rops (- (1 / 2) * k / (w * w)) (q_grad Rops PI q c)))) /\
+  (forall (x y z : R -> R) (ex ey ez : R) (c : vec3),
+     is_derive x 0 ex -> is_derive y 0 ey -> is_derive z 0 ez -> uv_nonsingular (x 0, y 0, z 0) c ->
+     is_derive (fun t => 1 / 2 * k / (w * w) * uv_dist2 Rops (x t, y t, z t) c) 0
+               (- v3dot Rops (v3scale Rops (- (1 / 2) * k / (w * w)) (uv_grad Rops (x 0, y 0, z 0) c)) (ex, ey, ez))) /\
+  (forall (a0 a1 a2 a3 : R -> R) (e0 e1 e2 e3 : R) (c : quat),
+     is_derive a0 0 e0 -> is_derive a1 0 e1 -> is_derive a2 0 e2 -> is_derive a3 0 e3 ->
+     qdot Rops (a0 0, a1 0, a2 0, a3 0) (e0, e1, e2, e3) = 0 -> q_nonsingular (a0 0, a1 0, a2 0, a3 0) c ->
+     is_derive (fun t => 1 / 2 * k / (w * w) * q_dist2 Rops PI (a0 t, a1 t, a2 t, a3 t) c) 0
+               (- qdot Rops (qscale Rops (- (1 / 2) * k / (w * w)) (q_grad Rops PI (a0 0, a1 0, a2 0, a3 0) c)) (e0, e1, e2, e3))).
+Proof.
+  intros k w. split; [intros a b q c; apply hr_manifold_unfold|].
+  split; [exact (hr_unit_force_curve k w) | exact (hr_quat_force_curve k w)].
+Qed.
+Print Assumptions C18_restraint_force_is_minus_energy_derivative_on_manifolds.
